@@ -11,3 +11,42 @@ Theorem C14_member_oracle : forall (Vr : Type) (E : EqDec Vr) (G : cfg Vr) (w : 
   cfg_member G w = true <-> LangG G w.
 Proof. exact (@cfg_member_spec). Qed.
 Print Assumptions C14_member_oracle.
+
+(* ---- FIRST / FOLLOW are the textbook sets; the LL(1) parser is sound and, on grammars passing the LL(1) test, complete ---- *)
+From PFL Require Import Model.Cfg Model.LL1 Proofs.LL1.
+
+(* registration invariants of CFG.__init__ (heads, body variables, body terminals are registered) are hypotheses throughout;
+   "every body symbol derives some word" is the absence of non-generating symbols the property assumes *)
+Theorem C14_first_set : forall (Vr : Type) (E : EqDec Vr) (G : cfg Vr),
+  (forall A body, In (A, body) (g_prods G) -> In A (g_vars G)) ->
+  (forall A body a, In (A, body) (g_prods G) -> In (T a) body -> In a (g_terms G)) ->
+  (forall A body X, In (A, body) (g_prods G) -> In X body -> exists w, derives G X w) ->
+  forall A l, In (A, l) (first_set G) <-> exists u, derives G (V A) u /\ la u = l.
+Proof. exact (@first_set_spec). Qed.
+Print Assumptions C14_first_set.
+
+Theorem C14_follow_set : forall (Vr : Type) (E : EqDec Vr) (G : cfg Vr),
+  (forall A body, In (A, body) (g_prods G) -> In A (g_vars G)) ->
+  (forall A body B, In (A, body) (g_prods G) -> In (V B) body -> In B (g_vars G)) ->
+  (forall A body a, In (A, body) (g_prods G) -> In (T a) body -> In a (g_terms G)) ->
+  (forall A body X, In (A, body) (g_prods G) -> In X body -> exists w, derives G X w) ->
+  forall B l, In B (g_vars G) -> (In (B, l) (follow_set G) <-> Follows G B l).
+Proof. exact (@follow_set_spec). Qed.
+Print Assumptions C14_follow_set.
+
+(* whatever the tables contain, a returned tree is a parse tree of the whole word rooted at the start symbol *)
+Theorem C14_parser_sound : forall (Vr : Type) (E : EqDec Vr) (G : cfg Vr) (fuel : nat) (w : list N) (t : tree Vr),
+  ll1_parse G fuel w = Some t -> valid_tree G t /\ yield t = w /\ (exists s, g_start G = Some s /\ root t = V s) /\ LangG G w.
+Proof. exact (@ll1_parse_sound). Qed.
+Print Assumptions C14_parser_sound.
+
+(* on a grammar that passes is_llone_parsable, every word of the language is parsed (with any fuel above a bound: the parser terminates) *)
+Theorem C14_parser_complete : forall (Vr : Type) (E : EqDec Vr) (G : cfg Vr),
+  (forall A body, In (A, body) (g_prods G) -> In A (g_vars G)) ->
+  (forall A body B, In (A, body) (g_prods G) -> In (V B) body -> In B (g_vars G)) ->
+  (forall A body a, In (A, body) (g_prods G) -> In (T a) body -> In a (g_terms G)) ->
+  is_ll1 G = true ->
+  forall w, (forall s, g_start G = Some s -> In s (g_vars G)) -> LangG G w ->
+  exists f t, forall f', f <= f' -> ll1_parse G f' w = Some t.
+Proof. exact (@ll1_parse_complete). Qed.
+Print Assumptions C14_parser_complete.
